@@ -324,6 +324,9 @@ impl<T: Tier> Cfg<T> for M4C {
             Matrix4::from_translation(mk_v3(d[2])) * Matrix4::from_nonuniform_scale(T::int(2), T::int(-1), T::q(1, 2)),
             sing,
             proj,
+            // a rigid motion (scale 1) and a pure translation: the shapes a "rigid transform" fast path would test for
+            Matrix4::from_translation(mk_v3(d[1])) * rot,
+            Matrix4::from_translation(mk_v3(d[2])),
         ];
         if float {
             // determinant 2^-60: far below machine epsilon, not zero (pointless in the exact tier)
@@ -383,7 +386,7 @@ impl<T: Tier> Cfg<T> for M3P3 {
         let g: Matrix3<T> = mk_m3(mat_from_r::<T, 3>(&alphabet::generic(9, 1)));
         let mut sing = g;
         sing.z = sing.x + sing.x;
-        let mut g = vec![rot * T::q(-3, 2), shear, Matrix3::from_diagonal(mk_v3([T::int(2), T::int(-1), T::q(1, 2)])), sing];
+        let mut g = vec![rot * T::q(-3, 2), shear, Matrix3::from_diagonal(mk_v3([T::int(2), T::int(-1), T::q(1, 2)])), sing, rot];
         if float {
             g.push(Matrix3::from_value(T::q(1, 1 << 20)));
         }
@@ -442,6 +445,9 @@ impl<T: Tier> Cfg<T> for M3P2 {
             lin([[T::one(), T::zero()], [T::q(3, 2), T::one()]], [T::zero(), T::zero()]),
             lin([[T::int(2), T::zero()], [T::zero(), T::q(-1, 2)]], [d[2][0], d[2][1]]),
             lin([[T::int(2), T::int(1)], [T::int(4), T::int(2)]], [d[1][0], d[1][1]]),
+            // a rigid motion, and a projection onto a line (a zero column: singular whatever the rounding)
+            lin([[T::q(3, 5), T::q(4, 5)], [T::q(-4, 5), T::q(3, 5)]], [d[1][0], d[1][1]]),
+            lin([[T::one(), T::zero()], [T::zero(), T::zero()]], [d[2][0], d[2][1]]),
         ];
         if float {
             g.push(lin([[T::q(1, 1 << 30), T::zero()], [T::zero(), T::q(1, 1 << 30)]], [d[0][0], d[0][1]]));
@@ -564,7 +570,24 @@ fn invariant<T: Tier, C: Cfg<T>>(ctx: &mut Ctx, s: &C::Tr, gens: &[C::Tr]) {
     }
     // inverse
     let inv = C::inv(s);
-    let deg = C::degenerate(s);
+    // matrices in the float tiers: whether a determinant "is zero" is decided by the model's enclosure, not by how the
+    // implementation's own determinant() happens to round - outside the noise an inverse is demanded, inside it nothing is
+    let deg = if !T::EXACT && C::scale(s).is_none() {
+        let md = model::mdet(hs);
+        let zero_line = (0..4).any(|i| (0..4).all(|j| hs[i][j].approx() == 0.0)) || (0..4).any(|j| (0..4).all(|i| hs[i][j].approx() == 0.0));
+        if md.approx().abs() > T::tol(md, slack) {
+            false
+        } else if zero_line {
+            // a zero row or column: every term of every expansion of the determinant is an exact zero
+            true
+        } else {
+            ctx.branch("determinant-numerically-zero-not-judged");
+            let _ = C::degenerate(s);
+            return;
+        }
+    } else {
+        C::degenerate(s)
+    };
     let judged = match C::scale(s) {
         // the statement leaves 0 < |scale| <= 1e-6 open
         Some(sc) => T::EXACT || sc == T::zero() || sc.f().abs() > 1e-6,
@@ -595,9 +618,7 @@ fn invariant<T: Tier, C: Cfg<T>>(ctx: &mut Ctx, s: &C::Tr, gens: &[C::Tr]) {
         None => return,
     };
     // Option-shaped clauses first: they do not depend on conditioning
-    if affine(&hs) {
-        ctx.check(C::inv_tv(s, ps[0]).is_some(), &key(&format!("{}/inverse_vector/some-when-invertible", C::NAME)), || "inverse_transform_vector() is None for an invertible transform".to_string());
-    }
+    ctx.check(C::inv_tv(s, ps[0]).is_some(), &key(&format!("{}/inverse_vector/some-when-invertible", C::NAME)), || "inverse_transform_vector() is None for an invertible transform".to_string());
     // ill-conditioned: the error bound of the reference inverse is no longer small against the inverse itself
     let worst = model::mflat(hi).iter().map(|x| T::tol(*x, slack)).fold(0.0, f64::max);
     let size = model::mflat(hi).iter().map(|x| x.approx().abs()).fold(0.0, f64::max);
